@@ -349,12 +349,18 @@ def run(rep: Report, tier: str) -> None:
         rep.instance("R19.4", f"integer-csv/{rn}", nontrivial=True, sample={"read_type": rt, "select": " ".join(str(expr).split())[:160]})
         integral_read = str(rt).upper().split("(")[0] in ("BIGINT", "INTEGER", "INT", "SMALLINT", "HUGEINT", "TINYINT")
         guarded = "error(" in str(expr).lower() and ("floor(" in str(expr).lower() or "trunc(" in str(expr).lower() or "% 1" in str(expr) or "round(" in str(expr).lower())
-        if not (integral_read or guarded):
+        if integral_read:
+            rep.add(Finding("R19.4", f"R19.4/integer-csv/{rn}", grt.module.rel, grt.node.lineno, grt.qualname,
+                            f"an Integer {rn} is read from CSV with the integral column type {rt}: DuckDB's CSV reader rounds a literal such as 1.5 to 2 while parsing (no error, "
+                            f"ignore_errors or not), so the fractional value is accepted and two rows 7.25 / 7 collapse into one key; the read type must keep the fraction "
+                            f"(DOUBLE / DECIMAL / VARCHAR) for the select expression to be able to reject it"))
+        elif not guarded:
             rep.add(Finding("R19.4", f"R19.4/integer-csv/{rn}", bsc.module.rel, bsc.node.lineno, bsc.qualname,
                             f"an Integer {rn} read from CSV as {rt} is loaded with `{' '.join(str(expr).split())[:140]}`: no test of the decimal part and the cast to BIGINT rounds, so 1.5 is accepted "
                             f"as 2 instead of being rejected with DataLoadError 0-3-1-6 (the read type and the branch of build_select_columns that guards it no longer agree)"))
     rep.assumptions = ["DuckDB regexp_matches has search semantics (patterns are anchored explicitly)",
-                       "the load regex is applied to the value after vtl_period_normalize (read from _validate_loaded_table)"]
+                       "the load regex is applied to the value after vtl_period_normalize (read from _validate_loaded_table)",
+                       "DuckDB read_csv with an integral column type rounds fractional literals instead of rejecting them (observed once on the installed DuckDB while writing R19.4)"]
 
 
 def loaded_table_checks_on_every_path(P: Program, rep: Report, rule: str) -> None:
